@@ -7,8 +7,71 @@ ID = "C15"
 MODULE = "C15"
 IMPORTS = "Bytes Hosts HostsProofs"
 PROFILES = ("dev",)
-LOOKUP = "hosts.lookup_v0"        # model component compared with the implementation (V1 = repaired code)
-THEOREMS = []
+LOOKUP = "hosts.lookup"        # model component compared with the implementation (V1 = repaired code)
+MS = "St Req Rep Adm serve admin route targets refuse"
+THEOREMS = [
+    ("routing_eq_reference",
+     "forall (ops : list op) (c : collection) (sni : option bytes) (hh : list bytes), build ops = Ok c -> no_overlap (hosts_of ops) -> "
+     "omap hid (get_from_request V1 c sni hh) = Ok (reference (hosts_of ops) (default_index O ops) sni (hd_error hh))"),
+    ("routing_overlapping",
+     "forall (ops : list op) (c : collection) (sni : option bytes) (hh : list bytes), build ops = Ok c -> "
+     "omap hid (get_from_request V1 c sni hh) = Ok (reference_general ops sni (hd_error hh))"),
+    ("reference_general_eq_reference",
+     "forall (ops : list op) (sni hdr : option bytes), no_overlap (hosts_of ops) -> "
+     "reference_general ops sni hdr = reference (hosts_of ops) (default_index O ops) sni hdr"),
+    ("get_host_eq_owner",
+     "forall (ops : list op) (c : collection) (n : bytes), build ops = Ok c -> get_host V1 c n = Ok (owner O (hosts_of ops) n)"),
+    ("routed_host_configured",
+     "forall (ops : list op) (c : collection) (sni : option bytes) (hh : list bytes) (r : host), build ops = Ok c -> "
+     "get_from_request V1 c sni hh = Ok (Some r) -> exists h, nth_error (hosts_of ops) (hid r) = Some h /\\ hname r = h_name h"),
+    ("connection_choice",
+     "forall (ops : list op) (c : collection) (sni : option bytes) (hh : list bytes), build ops = Ok c -> "
+     "exists ch, choose_host V1 c sni hh = Ok ch /\\ match ch with "
+     "| Refuse409 => reference_general ops sni (hd_error hh) = None "
+     "| ServeWith h => reference_general ops sni (hd_error hh) = Some (hid h) end"),
+    ("builder_panics_iff_two_defaults",
+     "forall ops : list op, ((count_defaults ops <= 1)%nat -> exists c, build ops = Ok c) /\\ "
+     "((2 <= count_defaults ops)%nat -> build ops = Panic)"),
+    ("clear_target_eq",
+     "forall (ops : list op) (c : collection) (name : bytes), build ops = Ok c -> "
+     "clear_target V1 c name = Ok (if beq name [] || beq name s_default then dflt_owner ops else own ops name)"),
+    ("alias_chain_refuted",
+     "exists ops c hh, build ops = Ok c /\\ get_from_request V0 c None hh = Panic"),
+    ("ipv6_loopback_refuted",
+     "exists ops c hh, build ops = Ok c /\\ no_overlap (hosts_of ops) /\\ omap hid (get_from_request V0 c None hh) = Ok None /\\ "
+     "reference (hosts_of ops) (default_index O ops) None (hd_error hh) = Some O"),
+    ("host_frame",
+     "forall (St Req Rep : Type) (serve : nat -> St -> Req -> St * Rep) (route : Req -> option nat) (refuse : Rep) "
+     "(st : nat -> St) (r : Req) (i : nat), route r = Some i -> "
+     "(forall j, j <> i -> fst (rstep St Req Rep serve route refuse st r) j = st j) /\\ "
+     "(forall st', st' i = st i -> "
+     "snd (rstep St Req Rep serve route refuse st' r) = snd (rstep St Req Rep serve route refuse st r) /\\ "
+     "fst (rstep St Req Rep serve route refuse st' r) i = fst (rstep St Req Rep serve route refuse st r) i)"),
+    ("host_frame_history",
+     "forall (St Req Rep Adm : Type) (serve : nat -> St -> Req -> St * Rep) (admin : Adm -> St -> St) (route : Req -> option nat) "
+     "(targets : Adm -> nat -> bool) (refuse : Rep) (es : list (event Req Adm)) (st : nat -> St) (i : nat), "
+     "fst (mrun %(MS)s st es) i = fst (srun St Req Rep Adm serve admin i (st i) (filter (concerns Req Adm route targets i) es)) /\\ "
+     "replies_for Req Rep Adm route targets i es (snd (mrun %(MS)s st es)) "
+     "= snd (srun St Req Rep Adm serve admin i (st i) (filter (concerns Req Adm route targets i) es))" % {"MS": MS}),
+    ("host_history_independence",
+     "forall (St Req Rep Adm : Type) (serve : nat -> St -> Req -> St * Rep) (admin : Adm -> St -> St) (route : Req -> option nat) "
+     "(targets : Adm -> nat -> bool) (refuse : Rep) (es es' : list (event Req Adm)) (st st' : nat -> St) (i : nat), "
+     "st i = st' i -> filter (concerns Req Adm route targets i) es = filter (concerns Req Adm route targets i) es' -> "
+     "fst (mrun %(MS)s st es) i = fst (mrun %(MS)s st' es') i /\\ "
+     "replies_for Req Rep Adm route targets i es (snd (mrun %(MS)s st es)) "
+     "= replies_for Req Rep Adm route targets i es' (snd (mrun %(MS)s st' es'))" % {"MS": MS}),
+    ("server_step_routes_by_reference",
+     "forall (St P Rep : Type) (serve : nat -> St -> P -> St * Rep) (refuse : Rep) (ops : list op) (c : collection) "
+     "(st : nat -> St) (r : srequest P), build ops = Ok c -> server_step St P Rep serve refuse V1 c st r "
+     "= Ok (rstep St (srequest P) Rep (spec_serve St P Rep serve) (spec_route P ops) refuse st r)"),
+    ("connection_histories_eq_spec",
+     "forall (ops : list op) (c : collection), build ops = Ok c -> forall (reqs : list (list bytes * bytes)) (st : nat -> hstate), "
+     "Forall (fun r => fst r <> [] \\/ default_index O ops <> None) reqs -> "
+     "conn_history V1 c st reqs = map Ok (conn_spec ops st reqs)"),
+    ("absent_host_refuted",
+     "exists ops c p, build ops = Ok c /\\ conn_history V1 c (fun _ => hstate0) [([], p)] = [Ok WClosed] /\\ "
+     "conn_spec ops (fun _ => hstate0) [([], p)] = [W409]"),
+]
 RULE = ("(a) direct calls of HostCollection::builder().insert/.default(..).build() and Collection::get_from_request / get_host / "
         "get_or_default / get_default / clear_file / clear_file_caches on the real code against the Coq model (correspondence) and the "
         "reference resolver (oracle): collections of 1-4 hosts x default none/any position (and a second default: builder panic) x "
@@ -137,7 +200,14 @@ PATHS = [b"/h/page", b"/h/page?q=1", b"/h/other", b"/f.txt", b"/g.txt"]
 CONN_HOSTS = [b"localhost", b"localhost:8080", b"127.0.0.1", b"127.0.0.1:80", b"[::1]", b"[::1]:443", b"unknown.test", b"LOCALHOST"]
 
 
-def conn_case(rng, kind, ops=None, n=None):
+def conn_case(rng, kind, ops=None, n=None, reqs=None):
+    if reqs is not None:
+        xr = [xl(xlist([xb(h) for h in hh]), xb(path)) for hh, path in reqs]
+        return Case("hosts.conn", xl(x_ops(ops), xlist(xr)), "hosts.conn_spec", {"kind": kind}, "dev")
+    return _conn_case(rng, kind, ops, n)
+
+
+def _conn_case(rng, kind, ops=None, n=None):
     pool = NAMES + [b"d.test", b"localhost"]
     if ops is None:
         ops = random_ops(rng, pool)
@@ -208,6 +278,17 @@ def generate(rng, tier):
     pool = NAMES + EXTRA_NAMES
     for _ in range(nrand):
         cases.append(lookup_case(random_ops(rng, pool), rng, "random"))
+    # ---- (b) histories over loopback connections
+    ab = [(False, b"a.test", [b"www.a.test"]), (False, b"b.test", [])]
+    cases.append(conn_case(rng, "history-corpus", ops=ab, reqs=[([h], b"/h/page") for h in [b"a.test", b"b.test"] * 4]))
+    cases.append(conn_case(rng, "history-corpus", ops=ab, reqs=[([h], b"/f.txt") for h in [b"a.test", b"b.test", b"www.a.test", b"b.test."] * 2]))
+    cases.append(conn_case(rng, "history-corpus", ops=ab, reqs=[([b"a.test"], b"/h/page"), ([], b"/h/page"), ([b"b.test"], b"/h/page"),
+                                                               ([b"nobody.test"], b"/h/page"), ([b"[::1]:8080"], b"/h/page"),
+                                                               ([b"a.test:8080"], b"/h/page"), ([b"a.test"], b"/h/page")]))
+    cases.append(conn_case(rng, "history-corpus", ops=[(False, b"a.test", [b"x.test"]), (True, b"b.test", [b"a.test"])],
+                           reqs=[([h], b"/h/page") for h in [b"x.test", b"b.test", b"a.test", b"zzz", b"x.test", b"b.test"]] + [([], b"/h/page")]))
+    for _ in range(nconn):
+        cases.append(conn_case(rng, "history"))
     return cases
 
 
@@ -218,9 +299,22 @@ def _entries(text):
     return x[1][1][1]
 
 
+CLOSED = ("L", [("N", 0), ("L", [("N", 0)])])
+R409 = ("L", [("N", 0), ("L", [("N", 409)])])
+
+
 def spec_ok(c, i, s):
     if c.comp == "hosts.conn":
-        return i == s
+        if i == s:
+            return True
+        ie, se = _entries(i), _entries(s)
+        reqs = c.x[1][1][1]
+        has_default = any(o[1][0] == ("N", 1) for o in c.x[1][0][1])
+        if ie is not None and se is not None and len(ie) == len(se) == len(reqs):
+            diff = [k for k in range(len(ie)) if ie[k] != se[k]]
+            if diff and not has_default and all(ie[k] == CLOSED and se[k] == R409 and reqs[k][1][0][1] == [] for k in diff):
+                c.meta["class"] = "absent-host-closed"
+        return False
     ie, se = _entries(i), _entries(s)
     if ie is None or se is None:
         return i == s            # build outcome: (L (N 2)) on both sides
@@ -246,7 +340,7 @@ def spec_ok(c, i, s):
 
 
 def classify(c, i):
-    return None
+    return c.meta.get("class")
 
 
 def signature(c, m):
